@@ -170,28 +170,43 @@ structure Tag where
   pgp : Option Bytes
   deriving Repr, DecidableEq
 
+def tagNameLine (t : Tag) : Option Bytes :=
+  if !t.nameValid then none
+  else if t.name.head? == some 45 then none
+  else headerField [116, 97, 103] t.name
+
+def taggerLine : Option Signature → Option Bytes
+  | none => some []
+  | some s => (s.write).map (fun b => [116, 97, 103, 103, 101, 114, 32] ++ b ++ [10])
+
+def pgpPart : Option Bytes → Bytes
+  | none => []
+  | some m => [10] ++ m
+
 def Tag.write (t : Tag) : Option Bytes :=
   concatOpts
     [ some ([111, 98, 106, 101, 99, 116, 32] ++ hexBytes t.target ++ [10]),
       some ([116, 121, 112, 101, 32] ++ t.targetKind.bytes ++ [10]),
-      (if !t.nameValid then none
-       else if t.name.head? == some 45 then none
-       else headerField ([116, 97, 103]) t.name),
-      (match t.tagger with
-       | none => some []
-       | some s => (s.write).map (fun b => [116, 97, 103, 103, 101, 114, 32] ++ b ++ [10])),
+      tagNameLine t,
+      taggerLine t.tagger,
       some ([10] ++ t.message),
-      (match t.pgp with
-       | none => some []
-       | some m => some ([10] ++ m)) ]
+      some (pgpPart t.pgp) ]
+
+def taggerSize : Option Signature → Nat
+  | none => 0
+  | some s => 6 + 1 + s.size + 1
+
+def pgpSize : Option Bytes → Nat
+  | none => 0
+  | some m => 1 + m.length
 
 def Tag.size (t : Tag) : Nat :=
   6 + 1 + 2 * t.target.length + 1
   + 4 + 1 + t.targetKind.bytes.length + 1
   + 3 + 1 + t.name.length + 1
-  + (match t.tagger with | none => 0 | some s => 6 + 1 + s.size + 1)
+  + taggerSize t.tagger
   + 1 + t.message.length
-  + (match t.pgp with | none => 0 | some m => 1 + m.length)
+  + pgpSize t.pgp
 
 structure Entry where
   mode : Nat          -- u16
